@@ -55,6 +55,19 @@ Fixpoint unpack (l buf : list Z) (dst : tile) : tile :=
   | _, _ => dst
   end.
 Definition convert (ls ld : list Z) (src dst : tile) : tile := unpack ld (pack ls src) dst.
+(* MPI_Sendrecv with more data sent than the receive type takes is an MPI error (MPI_ERR_TRUNCATE,
+   fatal: the communicator has the default error handler), EXCEPT that Open MPI 4.1 copies the prefix
+   silently when the send type is one contiguous run (observed; implementation behaviour, not
+   verified).  true = the call returns. *)
+Fixpoint zlist_eqb (a b : list Z) : bool :=
+  match a, b with
+  | [], [] => true
+  | x :: a', y :: b' => (x =? y) && zlist_eqb a' b'
+  | _, _ => false
+  end.
+Definition contig (l : list Z) : bool :=
+  match l with [] => true | a :: _ => zlist_eqb l (zseq a (Z.of_nat (length l))) end.
+Definition sendrecv_ok (ls ld : list Z) : bool := (length ls <=? length ld)%nat || contig ls.
 
 (* ----------------------------------------------------------------- shapes *)
 Definition SH_FULL := 1.
@@ -145,6 +158,7 @@ Definition get_internal (E : env) (s : st) (f : nat) (has_es : bool) : st * opti
   | Some c => (s, Some c)
   | None =>
       if negb has_es then (set_err s 1, None) else
+      if negb (sendrecv_ok (lay E (f_src F) (f_cnt F)) (lay E (f_dst F) 1)) then (set_err s 1, None) else
       let data := convert (lay E (f_src F) (f_cnt F)) (lay E (f_dst F) 1) (cp_data (getc s (f_in F))) (e_fresh E) in
       let id := length (copies s) in
       let s1 := add_copy s {| cp_dtt := f_dst F; cp_rank := f_rank F; cp_data := data |} in
@@ -363,6 +377,7 @@ Definition writeback (E : env) (s : st) (C : cls) (t : nat) (X : nat) : st :=
       let T := getc s t in
       let src := if ty =? 0 then cp_dtt cp else ty in
       let dst := if td =? 0 then cp_dtt T else td in
+      if negb (sendrecv_ok (lay E src 1) (lay E dst 1)) then set_err s 1 else
       add_ev (setc_data s t (convert (lay E src 1) (lay E dst 1) (cp_data cp) (cp_data T))) (EConv X src 1 t dst)
   | _ => s
   end.
